@@ -263,7 +263,8 @@ type BytecodeCompiler struct {
 	Errors                *diagnostic.SyncDiagnosticList
 	scopes                bytecodeScopes
 	loopJumpSets          []*bytecodeLoopJumpSet
-	offsetValueIds        []int // ids of integers in the value pool that represent bytecode offsets
+	offsetValueIds        []int           // ids of integers in the value pool that represent bytecode offsets
+	callsToOptimise       []*bytecodeCall // calls emitted into this function that may get patched later, they hold bytecode offsets
 	secondToLastOpCode    bytecode.OpCode
 	lastOpCode            bytecode.OpCode
 	parent                *BytecodeCompiler
@@ -701,6 +702,9 @@ func (c *BytecodeCompiler) patchOptimisedCall(call *bytecodeCall, method value.M
 			call.bytecode.Instructions[call.bytecodeOffset] = byte(bytecode.CALL_METHOD_BC8)
 		case bytecode.CALL_METHOD16, bytecode.CALL_METHOD_TCO16:
 			call.bytecode.Instructions[call.bytecodeOffset] = byte(bytecode.CALL_METHOD_BC16)
+		default:
+			// the call site info must only be replaced together with the opcode
+			return
 		}
 		call.bytecode.Values[call.callSiteInfoIndex] = vm.NewBytecodeCallSiteInfo(
 			body,
@@ -713,6 +717,8 @@ func (c *BytecodeCompiler) patchOptimisedCall(call *bytecodeCall, method value.M
 			call.bytecode.Instructions[call.bytecodeOffset] = byte(bytecode.CALL_METHOD_NT8)
 		case bytecode.CALL_METHOD16, bytecode.CALL_METHOD_TCO16:
 			call.bytecode.Instructions[call.bytecodeOffset] = byte(bytecode.CALL_METHOD_NT16)
+		default:
+			return
 		}
 		call.bytecode.Values[call.callSiteInfoIndex] = vm.NewNativeCallSiteInfo(
 			body,
@@ -1137,6 +1143,10 @@ func (c *BytecodeCompiler) prepLocals() {
 	for _, id := range c.offsetValueIds {
 		currentValue := c.bytecode.Values[id].MustSmallInt()
 		c.bytecode.Values[id] = (currentValue + value.SmallInt(len(newInstructions))).ToValue()
+	}
+
+	for _, call := range c.callsToOptimise {
+		call.bytecodeOffset += len(newInstructions)
 	}
 }
 
@@ -9222,17 +9232,17 @@ func (c *BytecodeCompiler) compileOptimisedCallMethod(receiverType types.Type, n
 			tailCall,
 		)
 
-		c.globalData.callsToOptimise.Push(
-			newBytecodeCall(
-				name,
-				c.bytecode,
-				offset,
-				receiverNamespace,
-				argCount,
-				callSiteIndex,
-				tailCall,
-			),
+		call := newBytecodeCall(
+			name,
+			c.bytecode,
+			offset,
+			receiverNamespace,
+			argCount,
+			callSiteIndex,
+			tailCall,
 		)
+		c.callsToOptimise = append(c.callsToOptimise, call)
+		c.globalData.callsToOptimise.Push(call)
 		return
 	}
 
@@ -9256,17 +9266,17 @@ func (c *BytecodeCompiler) compileOptimisedCallMethod(receiverType types.Type, n
 			tailCall,
 		)
 
-		c.globalData.callsToOptimise.Push(
-			newBytecodeCall(
-				name,
-				c.bytecode,
-				offset,
-				receiverNamespace,
-				argCount,
-				callSiteIndex,
-				tailCall,
-			),
+		call := newBytecodeCall(
+			name,
+			c.bytecode,
+			offset,
+			receiverNamespace,
+			argCount,
+			callSiteIndex,
+			tailCall,
 		)
+		c.callsToOptimise = append(c.callsToOptimise, call)
+		c.globalData.callsToOptimise.Push(call)
 	default:
 		c.emitCallMethod(
 			vm.NewCallSiteInfo(name, argCount),
